@@ -55,7 +55,7 @@ class ExtendNode(ConfigList):
         except KeyError:
             return ConfigList(self)
 
-        if hasattr(node, 'extend'):
+        if isinstance(node, list): # (not "hasattr(node, 'extend')": a mapping with a key of that name has such an attribute)
             node.extend(self)
             into.ayns.remove_node(path)
             return node
